@@ -308,6 +308,14 @@ int sched_locks_held(void)
 	return n;
 }
 
+int sched_thread_idle(int id, int64_t min_deadline_us)
+{
+	struct sthread *s = &th[id];
+	if (s->state != T_BLOCKED_WAIT || s->woke_by_timeout) return 0;
+	if (fd_ready(s->epfd)) return 0;
+	return !s->has_deadline || s->deadline - vclock_us >= min_deadline_us;
+}
+
 void sched_end(void)
 {
 	for (int t = 1; t < nth; t++)
